@@ -22,7 +22,7 @@ static std::string pr(const Item& x) { return "[" + std::to_string(x.key) + "," 
 
 template <class Heap>
 static void run(Out& out, int variant, std::istringstream& is) {
-    Heap hp;
+    Heap hp{typename Heap::compare_type(1)};        // armed comparator object: see VF_Stateful
     auto emit = [&](Ev& ev) {
         std::vector<Item> drain;
         Heap c = hp;
@@ -67,15 +67,15 @@ int main(int argc, char** argv) {
         int variant; is >> variant;
         using namespace tlx;
         switch (variant) {
-        case 0: run<DAryHeap<Item, 1, ByKeyLess>>(out, variant, is); break;
-        case 1: run<DAryHeap<Item, 2, ByKeyLess>>(out, variant, is); break;
-        case 2: run<DAryHeap<Item, 2, ByKeyGreaterMirror>>(out, variant, is); break;
-        case 3: run<DAryHeap<Item, 3, ByKeyLess>>(out, variant, is); break;
-        case 4: run<DAryHeap<Item, 4, ByKeyGreaterMirror>>(out, variant, is); break;
-        case 5: run<DAryHeap<Item, 5, ByKeyLess>>(out, variant, is); break;
-        case 6: run<DAryHeap<Item, 6, ByKeyGreaterMirror>>(out, variant, is); break;
-        case 7: run<DAryHeap<Item, 7, ByKeyLess>>(out, variant, is); break;
-        default: run<DAryHeap<Item, 8, ByKeyGreaterMirror>>(out, variant, is); break;
+        case 0: run<DAryHeap<Item, 1, VF_Stateful<ByKeyLess>>>(out, variant, is); break;
+        case 1: run<DAryHeap<Item, 2, VF_Stateful<ByKeyLess>>>(out, variant, is); break;
+        case 2: run<DAryHeap<Item, 2, VF_Stateful<ByKeyGreaterMirror>>>(out, variant, is); break;
+        case 3: run<DAryHeap<Item, 3, VF_Stateful<ByKeyLess>>>(out, variant, is); break;
+        case 4: run<DAryHeap<Item, 4, VF_Stateful<ByKeyGreaterMirror>>>(out, variant, is); break;
+        case 5: run<DAryHeap<Item, 5, VF_Stateful<ByKeyLess>>>(out, variant, is); break;
+        case 6: run<DAryHeap<Item, 6, VF_Stateful<ByKeyGreaterMirror>>>(out, variant, is); break;
+        case 7: run<DAryHeap<Item, 7, VF_Stateful<ByKeyLess>>>(out, variant, is); break;
+        default: run<DAryHeap<Item, 8, VF_Stateful<ByKeyGreaterMirror>>>(out, variant, is); break;
         }
     }
     out.flush();
